@@ -38,7 +38,7 @@ def label_of(j):
 def run(tier, replay=None):
     res = Result("C13", tier)
     build.ensure_souffle()
-    wd = workdir("C13")
+    wd = workdir("C13", clean=not replay)      # a replay file lives in the work directory
     rng = random.Random(seed() * 7919 + 13)
     quick = tier == "quick"
     if replay:
@@ -79,7 +79,9 @@ def run(tier, replay=None):
     if only:
         cases = [c for c in cases if c[1] in only.split(",")]
     res.cov["programs_enumerated"] = len(cases)
-    res.cov["exhaustive"] = not quick and not only
+    res.cov["exhaustive"] = False
+    res.cov["exhaustive_families"] = [] if only else (["g2 (all 4^4 graphs, both renderings)", "shape (all 4025 clause shapes)"] +
+                                                      ([] if quick else ["g3 (all 4^9 graphs up to renaming of the relations)"]))
     fam_counts = {}
     for c in cases:
         k = "%s_%s" % (c[1], c[3]); fam_counts[k] = fam_counts.get(k, 0) + 1
